@@ -106,7 +106,14 @@ def behaviour_c13(rng):
     nth = rng.choice([1, 2, 3])
     # a sink that records and then reports an I/O error: the routing of the record must not depend on it
     failing = [rng.choice([1, 2, 3])] if rng.random() < 0.25 else []
-    return {"src": "random-c13", "format": fmt, "opts": opts, "opts_first": rng.random() < 0.4, "writer": {"shape": shape, "params": params, "failing": failing},
+    # a sink that accepts only a few bytes per write call (the record must still arrive whole), and sinks whose writer holds a
+    # lock for as long as it lives (an aborted format must not leave it poisoned)
+    short = {"id": rng.choice([x for x in (1, 2, 3) if x not in failing]), "n": rng.choice([1, 7, 32])} if rng.random() < 0.25 else {"id": 0, "n": 0}
+    locked = rng.sample([1, 2, 3], rng.choice([1, 3])) if rng.random() < 0.3 else []
+    if short["id"] and fmt == "pretty":
+        fmt = "full"       # (pretty records contain newlines: the chunks of a short-writing sink could not be re-assembled)
+    return {"src": "random-c13", "format": fmt, "opts": opts, "opts_first": rng.random() < 0.4,
+            "writer": {"shape": shape, "params": params, "failing": failing, "short": short, "locked": locked},
             "steps": steps_c13(rng, 40, nth)}
 
 
